@@ -10,6 +10,9 @@ CHARS = [c.encode() for c in string.printable if c not in "\t\n\r\x0b\x0c "] + [
 # multi-character lexer tokens that are plain text when unmatched / outside their context
 CHARS += [b"{{", b"}}", b"--", b"---", b"...", b"''", b"~>", b"{++", b"++}", b"{--", b"--}", b"{>>", b"<<}", b"{~~", b"~~}", b"{==", b"==}", b"$$", b"<!--", b"-->",
           b"[^", b"[#", b"[?", b"[>", b"[%", b"![", b"{=", b"``", b"##", b"://", b"<=", b"&&", b"%%", b"__"]
+# backslash escapes: in text the backslash disappears and the character is plain text; in verbatim/math regions both stay
+ESCP = [b"\\" + bytes([ch]) for ch in b'&<>"*#$_|~^%{}[]`\\']
+CHARS += ESCP
 # position: (name, template with {P}, kind)   kind: text | attr | verbatim | meta
 POSITIONS = [
     ("paragraph", b"{P}\n", "text"), ("heading", b"# {P}\n", "text"), ("list-item", b"* {P}\n* other\n", "text"), ("table-cell", b"| {P} | x |\n|---|---|\n| y | z |\n", "text"),
@@ -105,6 +108,12 @@ def make_case():
         if pname == "math" and any(x in c for x in b"{}\\$%#&_^~") and fmt in (2, 3, 4): return (None, [], dict(skipped=1))   # math is the author's own LaTeX
         doc, probe = make_doc(pi, c, tight, sk)
         base_doc, _ = make_doc(pi, b"x", tight, sk)
+        if c in ESCP:
+            if kind in ("meta", "attr"): return (None, [], dict(skipped=1))          # escapes are defined for running text; attribute/metadata strings are taken as written
+            if c[1:] == b"`" and pname == "code-span": return (None, [], dict(skipped=1))
+            if c[1:] == b"|" and pname == "table-cell": return (None, [], dict(skipped=1))
+            if c[1:] in (b"[", b"]") and pname == "link-text": return (None, [], dict(skipped=1))
+            if kind == "text": c = c[1:]                                                  # what the reader must see
         ext = EXT | (E["COMPLETE"] if kind == "meta" else (E["SNIPPET"] | E["NO_METADATA"]))
         out = mmd.convert(doc, ext, fmt) if fmt != 5 else mmd.convert_to_data(doc, ext, fmt, 0, None)
         base = mmd.convert(base_doc, ext, fmt) if fmt != 5 else mmd.convert_to_data(base_doc, ext, fmt, 0, None)
